@@ -25,7 +25,7 @@ CONSTANTS Kinds,      \* request kinds enabled in this configuration
           TickW, ProcW \* generator: weights (out of 20) of frame ticks and of processing steps
 
 ToListsNone == {<<>>}
-ToListsFull == {<<>>, <<1>>, <<2>>, <<1, 2>>, <<2, 2, 3>>, <<9>>, <<1, 1, 9, 3>>}
+ToListsFull == {<<>>, <<1>>, <<2>>, <<1, 2>>, <<2, 2, 3>>, <<9>>, <<1, 1, 9, 3>>, <<2, 3, 2>>, <<1, 2, 1>>, <<3, 1, 2, 3, 1>>, <<2, 1, 2, 1, 9>>}
 
 VARIABLE hist
 mvars == <<pre, cur, ev, exp, views, gh, hist>>
@@ -87,7 +87,7 @@ Observed(st, e, o) ==
   IN [ step |-> e.step, conn |-> e.conn,
        req |-> IF proc THEN Head(qAfterRecv) ELSE e.req,
        given |-> e.req, proc |-> proc, sid |-> e.sid,
-       ret |-> o.ret, out |-> o.out, dead |-> {}, obsOK |-> TRUE,
+       ret |-> o.ret, out |-> o.out, dead |-> {}, obsOK |-> TRUE, orphans |-> {},
        paired |-> FALSE, fl |-> {}, out0 |-> NoOut, same0 |-> TRUE, reqs |-> <<>>, rets |-> <<>> ]
 
 Bounded(st) ==
